@@ -15,7 +15,7 @@ ASSUMPTIONS = ['generator bookkeeping is self-checked: every recorded range slic
                'and script / style are lower case; the reported name is the one written in the start tag',
                'balanced_inward boundary convention is left open: first entry = a recorded element touching the position with no recorded descendant strictly containing it; rest = exactly its first-child chain']
 FLOORS = {'quick': {'position': 30000, 'document': 200}, 'thorough': {'position': 2000000, 'document': 12000}}
-REQUIRED_MONITORS = ['oracle:match', 'oracle:attributes', 'oracle:outward', 'oracle:inward']
+REQUIRED_MONITORS = ['oracle:match', 'oracle:attributes', 'oracle:outward', 'oracle:inward', 'oracle:retained']
 NDOCS = {'quick': 40, 'thorough': 900}
 
 
@@ -52,6 +52,19 @@ def tup(t):
     return (t.name, tuple(t.open), tuple(t.close) if t.close else None)
 
 
+def full(t):
+    return (t.name, tuple(t.open), tuple(t.close) if t.close else None,
+            tuple((a.name, a.name_start, a.name_end, a.value, a.value_start, a.value_end) for a in (getattr(t, 'attributes', None) or [])))
+
+
+def full_list(ts):
+    return [full(t) for t in ts]
+
+
+HELD = core.Retained(every=7)
+OTHER_DOC = '<ul class="nav"><li id=a>one<br></li><!-- <b> --><li><a href="#">two</a></li><script>if (a<b) c()</script></ul>'
+
+
 def blank_end_tags_unseen(src, recs, hm):
     "D2 evidence for the classifier: recorded end tags with a blank before `>` that the tag scanner does not report at all"
     seen = set()
@@ -82,6 +95,7 @@ def check_doc(src, recs, xml, ctx, hm, positions=None, domain='d1'):
             ctx.violation('exception', dict(case, fn='match'), {'exc': list(core.exc_site(r[1]))})
         else:
             m = r[1]
+            HELD.keep(m, full, case, 'match')
             exp = cands[0] if cands else None
             if exp is None:
                 if m is not None:
@@ -98,6 +112,26 @@ def check_doc(src, recs, xml, ctx, hm, positions=None, domain='d1'):
                 if len(ctx.samples) < 2 and len(cands) >= 2 and exp['attrs']:
                     ctx.sample({'document': src[:300], 'xml': xml, 'pos': pos, 'match': [m.name, m.open, m.close],
                                 'attributes': [a.to_json() for a in m.attributes]})
+        # ---- the same call made from inside a scanner callback on ANOTHER document (an editor plug-in does this when it walks one
+        # buffer and asks about a second): the answer is the answer of the plain call
+        if pos % 11 == 3 and r[0] == 'ok':
+            ctx.mon('oracle:match-reentrant')
+            got = []
+
+            def cb(name, typ, s_, e_, got=got):
+                if not got:
+                    got.append(core.call(hm.match, src, pos, opt))
+                    got.append(core.call(hm.balanced_inward, src, pos, opt))
+            outer = []
+            core.call(hm.scan, OTHER_DOC, lambda *a: (outer.append(a[:1] + a[2:]), cb(*a))[0])
+            plain_outer = []
+            core.call(hm.scan, OTHER_DOC, lambda *a: plain_outer.append(a[:1] + a[2:]))
+            pi = core.call(hm.balanced_inward, src, pos, opt)
+            if len(got) != 2 or got[0][0] != 'ok' or (got[0][1] and full(got[0][1])) != (r[1] and full(r[1])) \
+                    or got[1][0] != pi[0] or (pi[0] == 'ok' and full_list(got[1][1]) != full_list(pi[1])) or outer != plain_outer:
+                ctx.violation('reentrant-call-differs', dict(case, fn='match/balanced_inward inside a scan callback'),
+                              {'plain': r[1] and full(r[1]), 'inside_callback': [g[0] == 'ok' and (g[1] and (full(g[1]) if not isinstance(g[1], list) else full_list(g[1]))) for g in got],
+                               'outer_tokens_changed': outer != plain_outer})
         # ---- outward
         ctx.mon('oracle:outward')
         r = core.call(hm.balanced_outward, src, pos, opt)
@@ -106,6 +140,7 @@ def check_doc(src, recs, xml, ctx, hm, positions=None, domain='d1'):
         else:
             eo = [(c['name'], c['open'], c['close']) for c in cands]
             ao = [tup(t) for t in r[1]]
+            HELD.keep(r[1], full_list, case, 'balanced_outward')
             if eo != ao:
                 ctx.violation('outward-mismatch', case, {'expected': eo[:6], 'actual': ao[:6]})
         # ---- inward
@@ -115,6 +150,7 @@ def check_doc(src, recs, xml, ctx, hm, positions=None, domain='d1'):
             ctx.violation('exception', dict(case, fn='balanced_inward'), {'exc': list(core.exc_site(r[1]))})
             continue
         ai = [tup(t) for t in r[1]]
+        HELD.keep(r[1], full_list, case, 'balanced_inward')
         why = None
         if cands and not ai:
             why = 'empty although the position is strictly inside an element'
@@ -139,6 +175,9 @@ def check_doc(src, recs, xml, ctx, hm, positions=None, domain='d1'):
                 ctx.state('inward-chain-length', str(min(len(chain), 6)))
         if why:
             ctx.violation('inward-mismatch', case, {'why': why, 'actual': ai[:6]})
+    if len(HELD.items) > 150 or positions is not None:
+        # results kept by the caller are read again after the calls on this document (and on the documents before it)
+        HELD.verify(ctx)
 
 
 def run_shard(desc, ctx):
@@ -166,6 +205,7 @@ def run_shard(desc, ctx):
                     gen_html.BLANK_IN_END_TAG['p'] = 0.0
                 if len(src) <= 600 and any(r['close'] and src[r['close'][1] - 2].isspace() for r in recs):
                     check_doc(src, recs, xml, ctx, hm, domain='d2')
+        HELD.verify(ctx)
     finally:
         pr.uninstall()
     for k, v in pr.reach().items():
@@ -176,7 +216,8 @@ def replay(case, ctx):
     from emmet import html_matcher as hm
     recs = gen_html.from_json(case['truth'])
     gen_html.self_check(case['src'], recs)
-    check_doc(case['src'], recs, case['xml'], ctx, hm, positions=[case['pos']], domain=case.get('domain', 'd1'))
+    check_doc(case['src'], recs, case['xml'], ctx, hm, positions=None if case.get('retained') else [case['pos']], domain=case.get('domain', 'd1'))
+    HELD.verify(ctx)
 
 
 def _blank_end_tag(rec):
